@@ -247,6 +247,11 @@ func genC09Model(out *caseWriter, seed uint64, n int, args []string) error {
 				}
 				idx += len(m[0])
 			}
+			if ls := strings.LastIndex(text[:idx], "\n") + 1; m[1] == "0000-" && strings.HasPrefix(text[ls:], "@accrue") {
+				// an accrual window that starts in year 0000 expands into 10^5 transactions (known finding F21 in C14):
+				// not what this op is about
+				continue
+			}
 			text = text[:idx] + m[1] + text[idx+len(m[0]):]
 		}
 		items = append(items, caseIn{fmt.Sprintf("C09model-%d-%d", seed, i), "C09.model", hex.EncodeToString([]byte(text))})
